@@ -77,8 +77,11 @@ def run(pm, ctx):
     mults = [s for s in W.body if isinstance(s, ast.AugAssign) and isinstance(s.op, ast.Mult) and isinstance(s.target, ast.Name)]
     site = "_path: progress of the outer loop"
     if len(mults) != 1:
-        ctx.violation("C07-a", u.relpath, "_path", "alpha *= alpha_multiplier", "the outer loop does not multiply alpha exactly once per iteration at its top level",
-                      line=W.lineno, site=site)
+        if len(mults) > 1:
+            ctx.violation("C07-a", u.relpath, "_path", norm_src(mults[1]), "alpha is multiplied more than once per iteration: the recorded alphas do not grow by exactly alpha_multiplier",
+                          line=mults[1].lineno, site=site)
+        else:
+            ctx.unrecognised("C07-a", site, "no `alpha *= alpha_multiplier` at the top level of the outer loop")
         avar = mvar = None
     else:
         avar, mvar = mults[0].target.id, norm_src(mults[0].value)
@@ -149,8 +152,11 @@ def run(pm, ctx):
             apps.setdefault(n.func.value.id, []).append(n)
     site = "_path: histories"
     probs = []
-    if sorted(apps) != sorted(hist_names) or any(len(v) != 1 for v in apps.values()):
-        probs.append(f"each history must be appended exactly once; found {dict((k, len(v)) for k, v in apps.items())}")
+    if not apps:
+        ctx.unrecognised("C07-c", site, "no append to the four history lists")
+        apps = None
+    elif sorted(apps) != sorted(hist_names) or any(len(v) != 1 for v in apps.values()):
+        probs.append(f"each history must be appended exactly once per step; found {dict((k, len(v)) for k, v in apps.items())}")
     else:
         stmts = {k: _stmt(v[0]) for k, v in apps.items()}
         if not all(s in W.body for s in stmts.values()):
@@ -178,7 +184,9 @@ def run(pm, ctx):
             gd = [d for d in rd[stmts["geminis"]].get(gsc, ())] if gsc.isidentifier() else []
             if not gd or not all(d is not ENTRY and isinstance(d, ast.Assign) and "compute_val_score(clf, X, y, batch_size, gemini_objective)" in norm_src(d.value) and _within(d, Wi) for d in gd):
                 probs.append("geminis does not record the validation score computed at the end of the step's last epoch")
-    if probs:
+    if apps is None:
+        pass
+    elif probs:
         ctx.violation("C07-c", u.relpath, "_path", "history appends", "; ".join(probs), line=W.lineno, site=site)
     else:
         ctx.ok("C07-c", site, "four appends in one straight-line block after the NaN abort, before alpha grows")
@@ -238,7 +246,8 @@ def run(pm, ctx):
     wdef = [s for s in f.body if isinstance(s, ast.Assign) and norm_src(s.value) == "clf._get_weights()"]
     probs = []
     if len(snaps) != 2 or not wdef:
-        probs.append(f"expected the initial and the in-loop snapshot, found {len(snaps)}")
+        ctx.unrecognised("C07-e", site, f"expected an initial and an in-loop assignment of best_weights from clf._get_weights(); found {len(snaps)}")
+        snaps = None
     else:
         wname = wdef[0].targets[0].id
         for s in snaps:
@@ -279,7 +288,9 @@ def run(pm, ctx):
             fitc = [s for s in f.body if isinstance(s, ast.Expr) and norm_src(s) == "clf.fit(X, y)"]
             if not (ib and fitc and f.body.index(fitc[0]) < f.body.index(ib[0]) < f.body.index(init_snap[0]) if init_snap[0] in f.body else False):
                 probs.append("the initial best score / snapshot is not taken right after the unpenalised fit")
-    if probs:
+    if snaps is None:
+        pass
+    elif probs:
         ctx.violation("C07-e", u.relpath, "_path", "best_weights", "; ".join(probs), line=(snaps[0].lineno if snaps else f.lineno), site=site)
     else:
         for k in ("snapshots are element-wise copies of clf._get_weights()", "in-loop snapshot under score >= keep_threshold * best", "best score raised only with all features, before the snapshot test",
